@@ -362,6 +362,13 @@ def vec_case(draw: Any) -> Any:
         case["split"] = None
         case["assign"] = _assignments(draw, k)
         return case
+    if mode == "mixed-sum" and draw(st.integers(0, 2)) == 0:
+        # Eq(unknown, scalar): the left side is exactly the requested vector, the right side is no vector at all
+        case["terms"] = [["V", u], draw(_coef(0, k))]
+        case["split"] = 1
+        case["reduce"] = True
+        case["assign"] = _assignments(draw, k)
+        return case
     # atoms other than the unknown, for the modes that control where it occurs
     others = [i for i in range(k) if i != u]
 
